@@ -254,6 +254,35 @@ func runC09(c *core.Ctx) {
 				crossCheck(c, srv, args, nil, res)
 			}
 		}
+		// the malformed log together with an output sink that accepts nothing: the error that ends the run is still
+		// the malformed line (asserted when the report up to that line fits into one output buffer, so that no
+		// write was attempted before the parser got there)
+		if i%7 == 2 && k > 0 && inLog && c.HR != "" {
+			var ln int
+			fmt.Sscanf(planted[0][0], "%d", &ln)
+			lines := strings.SplitAfter(files["log.yaml"], "\n")
+			if ln-1 <= len(lines) {
+				srv.Write(map[string]string{"logpre.yaml": strings.Join(lines[:ln-1], "")})
+				for _, cmd := range [][]string{{"reg"}, {"reg", "--use-old-reg-reporter"}, {"print"}, {"csv", "log"}, {"bal"}} {
+					pargs := append(append([]string{}, pre...), "-l", "logpre.yaml")
+					before := run.Exec(c.HR, append(pargs, cmd...), run.ExecOpts{Dir: srv.Dir})
+					if before.Exit != 0 || len(before.Out) > 3000 {
+						continue
+					}
+					if full, err := os.OpenFile("/dev/full", os.O_WRONLY, 0); err == nil {
+						fargs := append(append([]string{}, pre...), cmd...)
+						res := run.Exec(c.HR, fargs, run.ExecOpts{Dir: srv.Dir, Stdout: full})
+						full.Close()
+						c.Eval(2)
+						c.Count("runs_with_a_malformed_log_and_a_full_sink", 1)
+						if res.Exit == 0 || !mentionsLine(res.ErrText(), planted[0][0], planted[0][1]) {
+							c.Violation(strings.Join(cmd, " ")+"|message-lost-with-a-failing-sink", fmt.Sprintf("stdout is /dev/full: exit %d, message %q does not name line %s and quote %q", res.Exit, clip(res.ErrText(), 200), planted[0][0], planted[0][1]),
+								caseDoc{Files: files, Args: fargs, Expected: planted, Note: "stdout is /dev/full; the report of the lines before the malformed one is " + fmt.Sprint(len(before.Out)) + " bytes", Observed: resDoc(res)})
+						}
+					}
+				}
+			}
+		}
 		// the corrupted file through a pipe (a non-seekable input): same messages, same line numbers
 		if i%5 == 0 && k > 0 {
 			content := files[target]
